@@ -61,7 +61,8 @@ package tor
 // MetaOK: while the metadata is not complete, the request table has one slot
 // per 16 KiB block of the expected metadata, and no piece store exists yet.
 //@ spec MetaOK(t *Torrent) bool
-//@   body t.infoComplete == 0 ==> (len(t.infoRequested) == (len(t.Info)+16383)/16384 && len(t.Info) <= 128*1024*1024 && t.Pieces.Length() <= 0)
+//@   body t.infoComplete == 0 ==> (len(t.infoRequested) == (len(t.Info)+16383)/16384 && len(t.Info) <= 128*1024*1024 && t.Pieces.Length() <= 0 &&
+//@        (t.Info == nil || t.infoBitmap == nil || ref_(t.Info) != ref_(t.infoBitmap)))
 
 // InfoBit: metadata block i has been received.
 //@ spec InfoBit(t *Torrent, i int) bool
